@@ -103,4 +103,4 @@ TEXT["C07"]["level"] += (" A second, non-FD oracle (C07x) re-derives the gradien
                          "and compares every entry at 1e-7 of a condition-aware scale (measured worst 4e-11).")
 TEXT["C18"]["technique"] += "; guided search (hill climbing over the duration genome, generated moves) for the worst residual under a ratio cap"
 EXTRA_ENGINES.append({"name": "libFuzzer", "path": "harness/src/fuzz_ppoly.cpp", "serves_properties": ["C03", "C11", "C16", "C20"],
-                      "kind_free_text": "clang -fsanitize=fuzzer,address,undefined; input bytes are read as the word tape of the same check function; quick tier replays corpus/<id>/, thorough tier runs 4 campaigns of 4e5 runs"})
+                      "kind_free_text": "clang -fsanitize=fuzzer,address,undefined; input bytes are read as the word tape of the same check function; quick tier replays corpus/<id>/, thorough tier runs 8 campaigns of 2e5 runs (C11: 1e5)"})
